@@ -133,6 +133,17 @@ fn boundary_texts() -> Vec<(String, &'static str)> {
         ("NOP".to_string(), "syntax-error"),
         (format!("{}*STACKSIZE 17", h), "syntax-error"),
         (format!("{}*STACKSIZE noset", h), "accept"),
+        (format!("{}*STACKSIZE 016", h), "syntax-error"),
+        (format!("{}*STACKSIZE 00", h), "syntax-error"),
+        (format!("{}*STACKSIZE 064", h), "syntax-error"),
+        (format!("{}*STACKSIZE 0", h), "accept"),
+        (format!("{}*STACKSIZE 160", h), "syntax-error"),
+        (format!("{}*PROGRAMSIZE 007", h), "accept"),
+        (format!("{}*PROGRAMSIZE 0256", h), "syntax-error"),
+        (format!("{}*PROGRAMSIZE 255", h), "accept"),
+        (format!("{}*PROGRAMSIZE 256", h), "syntax-error"),
+        (format!("{}.EQU x 007", h), "accept"),
+        (format!("{}.ORG 007\n.BYTE 00", h), "accept"),
         (format!("{}*PROGRAMSIZE 0x10", h), "syntax-error"),
         (format!("{}*PROGRAMSIZE auto", h), "accept"),
         (format!("{}STOP\r\nSTOP\rSTOP\n", h), "accept"),
